@@ -44,6 +44,10 @@ fn percent_encode(s: &BStr) -> Cow<'_, str> {
     percent_encoding::percent_encode(s, PERCENT_ENCODE_SET).into()
 }
 
+#[cfg(kani)]
+#[path = "/verif/harness/gff/writer_attributes_field.rs"]
+mod verif_kani;
+
 #[cfg(test)]
 mod tests {
     use super::*;
